@@ -136,7 +136,8 @@ func driveC04(p *Pool, r *evid.Run) {
 	}
 	bases := []base{{"small", "small-dirty", []string{"run", "recv"}, []int{1, 64}, 1}}
 	if !quick {
-		bases = []base{{"small", "small-dirty", []string{"run", "rr", "recv", "send"}, []int{1, 2, 64}, 1}, {"six", "empty", []string{"run", "recv"}, []int{1, 64}, 1}}
+		bases = []base{{"small", "small-dirty", []string{"run", "rr", "recv", "send"}, []int{1, 2, 64}, 1}, {"six", "empty", []string{"run", "recv"}, []int{1, 64}, 1},
+			{"c19hl", "c19hl-dirty", []string{"run", "recv"}, []int{1, 64}, 1}}
 	}
 	for _, b := range bases {
 		// fault-free roots give the operation counts that bound the fault positions
@@ -352,6 +353,9 @@ func driveC04(p *Pool, r *evid.Run) {
 	for _, pol := range []string{"run", "recv", "rr"} {
 		crash = append(crash, Scn{Kind: "xfer", Src: "small", Dst: "small-dirty", Cap: 2, Policy: pol, FsPoints: true, Crash: true})
 		crash = append(crash, Scn{Kind: "xfer", Src: "mid", Dst: "mid-dirty", Cap: 2, Policy: pol, FsPoints: true, Crash: true})
+		// hard links: a later name may be linked to an inode whose content has not arrived yet
+		crash = append(crash, Scn{Kind: "xfer", Src: "c19hl", Dst: "empty", Cap: 2, Policy: pol, FsPoints: true, Crash: true})
+		crash = append(crash, Scn{Kind: "xfer", Src: "c19hl", Dst: "c19hl-dirty", Cap: 2, Policy: pol, FsPoints: true, Crash: true})
 	}
 	cb := 0
 	if !quick {
